@@ -71,7 +71,7 @@ pub(crate) fn forget_rest(writers: CommandWriters, a: ResourceController<Box<dyn
 
 fn zero_tween() -> Tween { Tween { start_time: StartTime::Immediate, duration: Duration::ZERO, easing: Easing::Linear } }
 
-// @ob id=C02.3a strength=bounded tier=thorough timeout=10800 bound="ibs 2, 1-2 frames; one child track holding one probe sound, one own probe sound, one probe effect (x*0.5+1/4), one send route at 0 dB or -60 dB, track volume 0 dB or -60 dB; dyadic sample values" fn=track/sub.rs::Track::process
+// @ob id=C02.3a strength=bounded tier=disabled bound="ibs 2, 1-2 frames; one child track holding one probe sound, one own probe sound, one probe effect (x*0.5+1/4), one send route at 0 dB or -60 dB, track volume 0 dB or -60 dB; dyadic sample values" fn=track/sub.rs::Track::process
 // @req a playing track with a child track, a sound, an effect and a send route; out pre-loaded with zeros
 // @ens out = effect(child_out + sound) * amp(volume) (fade at unity); the send track's input receives exactly that post-fader signal times the route gain; child, sound and effect are each driven exactly once for out.len() frames; the scratch buffer is all zero on return
 #[kani::proof]
@@ -120,7 +120,7 @@ fn c02_3a_track_signal_flow() {
     core::mem::forget(e); core::mem::forget(b);
 }
 
-// @ob id=C12.2a,C02.3b strength=bounded tier=thorough timeout=10800 bound="as C02.3a; the track paused with a zero-length fade" fn=track/sub.rs::Track::{process,read_commands,pause}
+// @ob id=C12.2a,C02.3b strength=bounded tier=disabled bound="as C02.3a; the track paused with a zero-length fade" fn=track/sub.rs::Track::{process,read_commands,pause}
 // @req the handle's pause command (zero-length fade) is read at a callback; then one warm-up process lets the fade finish; then a 2-frame process
 // @ens the track reports Paused; its output is exactly zero; its child track, its sound and its effect are not called at all (their positions cannot advance); nothing reaches the send
 #[kani::proof]
@@ -173,21 +173,21 @@ fn run_removal(persist: bool, has_sound: bool) {
     core::mem::forget(b);
 }
 
-// @ob id=C12.3a strength=bounded tier=thorough timeout=10800 bound="one parent with one child track; persistence off; one live sound; 'handle dropped' flags of parent and child symbolic" fn=track/sub.rs::Track::should_be_removed
+// @ob id=C12.3a strength=bounded tier=disabled bound="one parent with one child track; persistence off; one live sound; 'handle dropped' flags of parent and child symbolic" fn=track/sub.rs::Track::should_be_removed
 // @req parent without persistence
 // @ens should_be_removed == parent marked && child removable: a track is never removable while a descendant track is not; live sounds do not keep a non-persistent track
 #[kani::proof]
 #[kani::unwind(3)]
 fn c12_3a_removal_no_persist() { run_removal(false, true) }
 
-// @ob id=C12.3b strength=bounded tier=thorough timeout=10800 bound="as C12.3a; persistence on; one live sound" fn=track/sub.rs::Track::should_be_removed
+// @ob id=C12.3b strength=bounded tier=disabled bound="as C12.3a; persistence on; one live sound" fn=track/sub.rs::Track::should_be_removed
 // @req persistent parent that still has a sound
 // @ens never removable while its sound lives (built to persist until its sounds finish)
 #[kani::proof]
 #[kani::unwind(3)]
 fn c12_3b_removal_persist_with_sound() { run_removal(true, true) }
 
-// @ob id=C12.3c strength=bounded tier=thorough timeout=10800 bound="as C12.3a; persistence on; no sounds" fn=track/sub.rs::Track::should_be_removed
+// @ob id=C12.3c strength=bounded tier=disabled bound="as C12.3a; persistence on; no sounds" fn=track/sub.rs::Track::should_be_removed
 // @req persistent parent without sounds
 // @ens removable exactly when marked and the child is removable
 #[kani::proof]
@@ -285,7 +285,7 @@ fn c02_3c_leaf_track_signal_flow() {
     core::mem::forget(e); core::mem::forget(b);
 }
 
-// @ob id=C12.2b,C02.3d strength=bounded tier=quick timeout=2400 bound="a leaf track with one probe sound and one probe effect, paused with a zero-length fade; 2 frames" fn=track/sub.rs::Track::{process,read_commands,pause}
+// @ob id=C12.2b,C02.3d strength=bounded tier=thorough timeout=10800 bound="a leaf track with one probe sound and one probe effect, paused with a zero-length fade; 2 frames" fn=track/sub.rs::Track::{process,read_commands,pause}
 // @req pause command read at a callback, one warm-up update, then a 2-frame process
 // @ens the handle reports Pausing, then Paused; the paused track emits exact silence and neither its sound nor its effect is called (nothing beneath it advances)
 #[kani::proof]
